@@ -8,7 +8,7 @@ import numpy as np
 from .components import HEADER, k_, nl, zl
 from .coqrun import run_cases
 
-HDR = HEADER.replace("From HV Require Import Ord Select.", "From HV Require Import Ord Sprout Select Far.") + \
+HDR = HEADER.replace("From HV Require Import Ord Select", "From HV Require Import Ord Sprout Far Select") + \
     "Definition flat (c : cmap) : list Z := flat_map (fun pk => (Z.of_nat (fst pk) :: Z.of_nat (length (snd pk)) :: snd pk)) c.\n"
 
 
